@@ -427,10 +427,58 @@ func TestC04(t *testing.T) {
 		gen.NonTrivial("foreign-arc", x, n)
 		gen.Class("foreign-arc-element")
 	})
+	// A level that asks, in ONE component, for more than the platform has - that component carrying one of the labels the
+	// PCS attaches to components - is not met, whatever the label says; the level the platform does meet is OutOfDate.
+	gen.Direct(t, "labelled-components", func(t *testing.T) {
+		i := 0
+		for _, major := range []byte{0, 1, 2} {
+			for k := 0; k < 16; k++ {
+				for _, label := range []string{"TDX Module", "OS/VMM", "SGX Late Microcode Update"} {
+					for _, which := range []string{"tdx", "sgx"} {
+						i++
+						if !gen.ShardOwns(i) || (major != 0 && which == "tdx" && k < 2) {
+							continue // on the module branch TDX components 0 and 1 are the module's own numbers
+						}
+						s := gen.NewStream(gen.Seed()+uint64(i), "c04label")
+						w := gen.NewWorld(gen.NewPKI(gen.PKISpec{Seed: gen.PKISeeds[i%4]}), s)
+						for j := range w.Sgx.Comp {
+							w.Sgx.Comp[j] = byte(1 + s.Intn(200))
+						}
+						for j := range w.Q.TeeTcbSvn {
+							w.Q.TeeTcbSvn[j] = byte(1 + s.Intn(200))
+						}
+						w.Q.TeeTcbSvn[1] = major
+						w.HonestCollateral()
+						met := w.TcbInfo.Levels[0]
+						met.Status = "OutOfDate"
+						first := w.TcbInfo.Levels[0]
+						if which == "tdx" {
+							first.Tdx[k]++
+							first.TdxTypes[k] = label
+						} else {
+							first.Sgx[k]++
+							first.SgxTypes[k] = label
+						}
+						w.TcbInfo.Levels = []gen.PlatformLevel{first, met}
+						w.Build()
+						o := w.Options(gen.LvlColl, w.NewGetter(), nil)
+						gen.Eval()
+						v := gen.Call(func() error { return verify.RawTdxQuote(w.Raw, o) })
+						gen.NonTrivial("label", major, k, label, which)
+						gen.Class("labelled-component:" + which)
+						if v.Accepted() {
+							gen.Fail(t, gen.Violation{Key: "accepts-bad-tcb:labelled-component-not-compared", Oracle: "accepted only if identity fields match and the selected platform (and module) level is UpToDate", Detail: fmt.Sprintf("TDX module major %d: the first level (UpToDate) asks for one more than the platform has in %s component %d, labelled %q; the level the platform meets is OutOfDate: accepted", major, which, k, label), Replay: w.CaseFile(gen.LvlColl, nil, nil, nil, "reject")})
+							return
+						}
+					}
+				}
+			}
+		}
+	})
 	// (a') the SIGNED TCB Info lacks something the evaluation needs while an unsigned, differently spelled sibling member
 	// supplies a complete, favourable document: what the signed member does not say is not said
 	gen.Prop(t, "signed-tcb-info-omits-what-an-unsigned-twin-supplies", gen.N(500, 40000), func(t *rapid.T) {
-		drop := rapid.SampledFrom([]string{"tdxModuleIdentities", "tdxModuleIdentities", "tcbLevels", "fmspc", "pceId", "tdxModule", "level.tcbStatus", "module-level.tcbStatus", "identity.tcbLevels", "tdxModule.mrsigner", "tdxModule.attributesMask"}).Draw(t, "omitted")
+		drop := rapid.SampledFrom([]string{"tdxModuleIdentities", "tdxModuleIdentities", "tcbLevels", "fmspc", "pceId", "tdxModule", "level.tcbStatus", "module-level.tcbStatus", "identity.tcbLevels", "tdxModule.mrsigner", "tdxModule.attributesMask", "nextUpdate", "nextUpdate"}).Draw(t, "omitted")
 		module := drop == "tdxModuleIdentities" || drop == "module-level.tcbStatus" || drop == "identity.tcbLevels"
 		w, _ := gen.DrawWorld(t, gen.WorldCfg{MaxAuth: 16, Simple: true, ForceModule: module, NoModule: !module})
 		w.Build()
@@ -467,6 +515,40 @@ func TestC04(t *testing.T) {
 		sig := hex.EncodeToString(w.PKI.TcbSig.Key.SignRaw(partial))
 		twin := rapid.SampledFrom(gen.FoldVariants("tcbInfo")).Draw(t, "twinSpelling")
 		var body string
+		if rapid.IntRange(0, 2).Draw(t, "afterAFailedDecode") == 0 {
+			// no twin in the response: instead, the response the process saw just before carried the complete document
+			// and failed to decode at its very last member. What a refused response said is no part of the next one.
+			u := gen.TcbInfoURL(w.FmspcHex())
+			tail := rapid.SampledFrom([]string{`"nextUpdate":"soon"`, `"issueDate":20240101`, `"version":"three"`, `"tcbEvaluationDataNumber":"x"`, `"tcbType":"zero"`}).Draw(t, "undecodableLastMember")
+			key := tail[1 : strings.Index(tail[1:], `"`)+1]
+			var fm map[string]json.RawMessage
+			_ = json.Unmarshal(full, &fm)
+			var sb strings.Builder
+			sb.WriteString("{")
+			for _, k := range []string{"id", "version", "issueDate", "nextUpdate", "fmspc", "pceId", "tcbType", "tcbEvaluationDataNumber", "tdxModule", "tdxModuleIdentities", "tcbLevels"} {
+				if k == key || fm[k] == nil {
+					continue
+				}
+				fmt.Fprintf(&sb, "%q:%s,", k, fm[k])
+			}
+			sb.WriteString(tail + "}")
+			bad := sb.String()
+			hdr := w.Resp[u].Header
+			w.Resp[u] = gen.Response{Header: hdr, Body: []byte(`{"tcbInfo":` + bad + `,"signature":"` + hex.EncodeToString(w.PKI.TcbSig.Key.SignRaw([]byte(bad))) + `"}`)}
+			o0 := w.Options(gen.LvlColl, w.NewGetter(), nil)
+			gen.Eval()
+			_ = gen.Call(func() error { return verify.RawTdxQuote(w.Raw, o0) })
+			w.Resp[u] = gen.Response{Header: hdr, Body: []byte(`{"tcbInfo":` + string(partial) + `,"signature":"` + sig + `"}`)}
+			o := w.Options(gen.LvlColl, w.NewGetter(), nil)
+			gen.Eval()
+			v := gen.Call(func() error { return verify.RawTdxQuote(w.Raw, o) })
+			gen.Class("omitted-after-a-failed-decode:" + drop)
+			gen.NonTrivial("omitted-after", drop, tail, w.Raw[:64])
+			if v.Accepted() {
+				gen.Fail(t, gen.Violation{Key: "accepts-bad-tcb:signed-tcb-info-lacks-" + drop + ":after-a-refused-response", Oracle: "accepted only if identity fields match and the selected platform (and module) level is UpToDate — according to the SIGNED TCB Info", Detail: fmt.Sprintf("the signed TCB Info has no %s; the response before it (refused: its last member %s does not decode) carried a complete document; the quote is accepted", drop, tail), Replay: w.CaseFile(gen.LvlColl, nil, nil, nil, "reject")})
+			}
+			return
+		}
 		switch rapid.IntRange(0, 2).Draw(t, "order") {
 		case 0:
 			body = `{"` + twin + `":` + string(full) + `,"tcbInfo":` + string(partial) + `,"signature":"` + sig + `"}`
@@ -618,6 +700,20 @@ func TestC04(t *testing.T) {
 			if len(w.TcbInfo.Identities) > 0 {
 				w.TcbInfo.Identities[0].ID = rapid.SampledFrom([]string{"TDX_1", "tdx_01", "TDX_00", "TDX_0" + fmt.Sprint(w.Q.TeeTcbSvn[1]+1)}).Draw(t, "idname")
 			}
+		}
+		// the PCS labels components ("type": "TDX Module", "OS/VMM", ...): text for people, no part of the comparison
+		if rapid.Bool().Draw(t, "componentLabels") {
+			for i := range w.TcbInfo.Levels {
+				for k := 0; k < 16; k++ {
+					if lbl := rapid.SampledFrom([]string{"", "", "TDX Module", "TDX Module", "OS/VMM", "Early Microcode Update", "SGX Late Microcode Update", "TDX Late Microcode Update"}).Draw(t, "label"); lbl != "" {
+						w.TcbInfo.Levels[i].TdxTypes[k] = lbl
+					}
+					if rapid.IntRange(0, 3).Draw(t, "sgxLabel") == 0 {
+						w.TcbInfo.Levels[i].SgxTypes[k] = rapid.SampledFrom([]string{"TDX Module", "Early Microcode Update", "SGX Late Microcode Update"}).Draw(t, "slabel")
+					}
+				}
+			}
+			gen.Class("random:component-labels")
 		}
 		c04Run(t, w, "random world ["+d.String()+"]", "")
 		gen.Class("random")
